@@ -128,7 +128,12 @@ theorem pending_closedB (N : Nat) : ClosedB (fun x => pendingTotal x ≤ N) wher
   allEmpty := fun s h => by rw [pendingTotal_of_bq (bq_allEmpty s)]; exact h
   hasPending := fun s h => by rw [pendingTotal_of_bq (bq_hasPending s)]; exact h
   cleanupContexts := fun s h => by rw [pendingTotal_of_bq (bq_cleanupContexts s)]; exact h
-  cleanupLoggers := fun s h => by rw [pendingTotal_of_bq (bq_cleanupLoggers s)]; exact h
+  invFlag := fun _ _ h => h
+  erase := fun s i h _ _ => by
+    have e : bq ((allEmpty s).1.setLg i (fun l => { l with erased := true })) = bq s := bq_allEmpty s
+    rw [pendingTotal_of_bq e]; exact h
+  reap := fun _ _ h _ _ => h
+  flagRemoval := fun _ _ _ h => h
   flushSinks := fun s h => by rw [pendingTotal_of_bq (bq_flushSinks s)]; exact h
   readPrep := fun s i h => by
     rw [pendingTotal_of_bq (by unfold readPrepSt; exact bq_setTh _ _ _ (fun _ => rfl) (fun _ => rfl))]; exact h
@@ -157,8 +162,8 @@ theorem exitLoop_pending_le (tick : Nat) : ∀ (fuel : Nat) (s : BSt),
     rw [exitLoop_succ]
     split
     · unfold exitFinal
-      have e : bq (cleanupLoggers (cleanupContexts (flushSinks (checkFailures (runInj []) (allEmpty s).1)))) = bq s := by
-        rw [bq_cleanupLoggers, bq_cleanupContexts, bq_flushSinks, bq_checkFailures_nil, bq_allEmpty]
+      have e : bq (cleanupLoggers (runInj []) (cleanupContexts (flushSinks (checkFailures (runInj []) (allEmpty s).1)))) = bq s := by
+        rw [bq_cleanupLoggers _ runInj_nil_quiet9, bq_cleanupContexts, bq_flushSinks, bq_checkFailures_nil, bq_allEmpty]
       rw [pendingTotal_of_bq e]
       exact Nat.le_refl _
     · exact Nat.le_trans (exitLoop_pending_le tick fuel _) (exitBody_pending_le tick s)
